@@ -125,7 +125,18 @@ impl PathSliceList {
         scopes: &Vec<ScopeVar>,
         model: Option<bool>,
     ) -> Result<(), TmplError> {
+        // the path of a for-item is `null` at run time when the list had no path (e.g. the other branch of a conditional)
+        let nullable_var = match self.0.first() {
+            Some(PathSlice::ScopeIndex(i)) => match &scopes[*i].lvalue_path {
+                ScopeVarLvaluePath::Var { var_name, .. } => Some(var_name.clone()),
+                _ => None,
+            },
+            _ => None,
+        };
         let br = |w: &mut JsExprWriter<W>| -> Result<(), TmplError> {
+            if let Some(var_name) = &nullable_var {
+                write!(w, "({}?", var_name)?;
+            }
             write!(w, "[")?;
             let mut write_items = || -> Result<bool, TmplError> {
                 let mut iter = self.0.iter();
@@ -189,6 +200,9 @@ impl PathSliceList {
             if need_slice_1 {
                 write!(w, ".slice(1)")?;
             }
+            if nullable_var.is_some() {
+                write!(w, ":null)")?;
+            }
             Ok(())
         };
         if let Some(PathSlice::Condition(cond, (true_br, _), (false_br, _))) = self.0.first() {
@@ -198,18 +212,14 @@ impl PathSliceList {
                 write!(w, r#":"#)?;
                 false_br.write_lvalue_path(w, scopes, model)?;
             } else {
-                write!(w, r#"{}?"#, cond)?;
-                if true_br.write_lvalue_path(w, scopes, model)?.is_some() {
-                    write!(w, r#".concat("#)?;
-                    br(w)?;
-                    write!(w, r#")"#)?;
-                }
+                // (a branch path may be `null` at run time)
+                write!(w, r#"(($)=>$&&$.concat("#)?;
+                br(w)?;
+                write!(w, r#"))({}?"#, cond)?;
+                true_br.write_lvalue_path(w, scopes, model)?;
                 write!(w, r#":"#)?;
-                if false_br.write_lvalue_path(w, scopes, model)?.is_some() {
-                    write!(w, r#".concat("#)?;
-                    br(w)?;
-                    write!(w, r#")"#)?;
-                }
+                false_br.write_lvalue_path(w, scopes, model)?;
+                write!(w, r#")"#)?;
             }
         } else {
             br(w)?;
